@@ -1,12 +1,30 @@
 """Which harness sources are built in which flavour for the quick tier (used by setup)."""
+import glob
+import importlib
 import os
 
 from . import build as B
 
-QUICK = [
-    ("c01_index", "asan"),
-]
-
 
 def quick_targets():
-    return [B.Target(os.path.join(B.HARNESS, n + ".cpp"), f) for n, f in QUICK]
+    seen = set()
+    out = []
+    for f in sorted(glob.glob(os.path.join(B.VERIF, "vf", "checks", "c[0-9][0-9].py"))):
+        m = importlib.import_module("vf.checks." + os.path.basename(f)[:-3])
+        if not getattr(m, "CLAIM", None):
+            continue
+        for item in getattr(m, "TARGETS_QUICK", []):
+            if callable(item):
+                for t in item():
+                    k = (t.name, t.flavor, tuple(t.extra))
+                    if k not in seen:
+                        seen.add(k)
+                        out.append(t)
+                continue
+            n, fl = item[0], item[1]
+            extra = list(item[2]) if len(item) > 2 else []
+            k = (n, fl, tuple(extra))
+            if k not in seen:
+                seen.add(k)
+                out.append(B.Target(os.path.join(B.HARNESS, n + ".cpp"), fl, extra))
+    return out
